@@ -16,6 +16,7 @@ var c12Alpha = []*BatchSpec{
 	kv("b", "$", "a", "<del>"),
 	{Ops: kv("c", "$").Ops, Kids: kid("A", kv("x", "$"))},
 	{Kids: kid("A", kv("y", "$", "x", "<del>"))},
+	{Kids: kid("N", &BatchSpec{Kids: kid("L", kv("z", "$"))})}, // nested: N has no key of its own, N/L has
 }
 
 type c12Job struct {
@@ -113,7 +114,7 @@ func (w *World) compactions() int {
 func c12One(cfg Config, seq []int, target, cont int, res *c12Res) *Violation {
 	w := NewWorld(cfg, c12Alpha)
 	defer w.Teardown()
-	w.probes = []string{"a", "b", "c", "x", "y"}
+	w.probes = []string{"a", "b", "c", "x", "y", "z"}
 	if w.infra != "" {
 		res.Infra = w.infra
 		return nil
